@@ -152,6 +152,13 @@ theorem c15_parseUint_total_base0 (s : List Nat) (bits : Nat) (hbits : bits ≤ 
       else (2 ^ effBits bits - 1, .range) :=
   parseUint_total_base0 s bits hbits hne
 
+-- "12x4" in base 10: the longest digit prefix is "12", a character remains → syntax error;
+-- "300" fits neither 8 bits → (255, range); "0x_1f_" under base 0: trailing underscore → syntax error
+example : [49, 50, 120, 52].takeWhile (okDigit 10) = [49, 50] ∧
+    parseUint [49, 50, 120, 52] 10 64 = (0, .syntax) ∧ parseUint [51, 48, 48] 10 8 = (255, .range) ∧
+    parseUint [48, 120, 95, 49, 102, 95] 0 64 = (0, .syntax) ∧
+    parseUint [48, 120, 95, 49, 102] 0 64 = (31, .ok) := by decide
+
 -- prefix handling as coded: "0x1f" → (16, "1f"); "0x" → (8, "x") (too short for a prefix); "017" → (8, "17")
 example : base0Prefix [48, 120, 49, 102] = (16, [49, 102]) ∧ base0Prefix [48, 120] = (8, [120]) ∧
     base0Prefix [48, 49, 55] = (8, [49, 55]) ∧ base0Prefix [49, 55] = (10, [49, 55]) := by decide
@@ -219,6 +226,12 @@ theorem c15_hex_decode_in_place (b : List Nat) :
     ∃ out e, hexDecode? b = some (out, e) ∧
       hexDecodeInPlace? b = some (out ++ b.drop out.length, out.length, e) :=
   ⟨_, _, hexDecode?_eq b, hexDecodeInPlace?_eq b⟩
+
+example : AllHex [97, 66, 99] ∧ hexDecodeInPlace? [97, 66, 99] = some ([171, 66, 99], 1, .length) := by
+  refine ⟨?_, by decide⟩
+  intro x hx
+  simp only [List.mem_cons, List.not_mem_nil, or_false] at hx
+  rcases hx with rfl | rfl | rfl <;> decide
 
 -- "1g3" : invalid 'g' wins over the odd length; "abc" : odd length, one byte decoded
 example : hexDecode? [49, 103, 51] = some ([], .invalidByte 103) ∧
